@@ -97,7 +97,8 @@ package nodes
 // C03 per-record accounting of a group (both group-by nodes): the group's record count moves by exactly +-1 and the
 // group exists afterwards iff that count is not zero; per aggregate, a NULL input is skipped entirely (neither the
 // set size nor the aggregate sees it) and a non-NULL input moves the set size by +-1 and is handed, with the
-// record's retraction flag, to that group's aggregate — exactly once; other aggregates' set sizes are untouched.
+// record's retraction flag, to that group's aggregate — exactly once; other aggregates' set sizes are untouched; every
+// key expression and every aggregate is processed (the loops are left only at their end or by returning an error).
 //@ func (*CustomTriggerGroupBy).Run$lit1
 //@   loop 1 invariant keys: len(key) == len(g.keyExprs) && forall(j, 0, $k, same(key[j], evalVal(g.keyExprs[j], ctx)))
 //@   loop 2 invariant keys: len(key) == len(g.keyExprs) && forall(j, 0, len(g.keyExprs), same(key[j], evalVal(g.keyExprs[j], ctx)))
@@ -106,6 +107,8 @@ package nodes
 //@   loop 4 step handed: aggregateInput.TypeID != 0 ==> lastarg(Add, 0) == record.Retraction && same(lastarg(Add, 1), aggregateInput) && lastrecv(Add) == itemTyped.Aggregates[i]
 //@   loop 4 step input: same(aggregateInput, evalVal(g.aggregateExprs[i], ctx))
 //@   loop 4 step others: forall(j, 0, len(itemTyped.AggregatedSetSize), j != i ==> itemTyped.AggregatedSetSize[j] == old(itemTyped.AggregatedSetSize[j]))
+//@   loop 4 nobreak
+//@   loop 1 nobreak
 
 // C03 the hash group-by (no custom triggers): same per-record accounting; the final pass emits, per stored group, its
 // key columns followed per aggregate by NULL if the set of non-NULL inputs is empty, else the aggregate's value.
@@ -124,6 +127,8 @@ package nodes
 //@   loop 3 step counted: aggregateInput.TypeID != 0 ==> itemTyped.AggregatedSetSize[i] == wrap64(old(itemTyped.AggregatedSetSize[now(i)]) + ite(record.Retraction, 0 - 1, 1)) && calls(Add) == old(calls(Add)) + 1
 //@   loop 3 step handed: aggregateInput.TypeID != 0 ==> lastarg(Add, 0) == record.Retraction && same(lastarg(Add, 1), aggregateInput) && lastrecv(Add) == itemTyped.Aggregates[i]
 //@   loop 3 step others: forall(j, 0, len(itemTyped.AggregatedSetSize), j != i ==> itemTyped.AggregatedSetSize[j] == old(itemTyped.AggregatedSetSize[j]))
+//@   loop 3 nobreak
+//@   loop 1 nobreak
 //@ func (*SimpleGroupBy).Run$lit5$lit2
 //@   loop 1 invariant keycopy: len(outputValues) == len(key) + len(g.aggregateExprs) && forall(j, 0, len(key), same(outputValues[j], key[j])) && len(OUT) == old(len(OUT))
 //@   loop 1 step empty: itemTyped.AggregatedSetSize[i] <= 0 ==> outputValues[len(key)+i].TypeID == 0 && calls(Trigger) == old(calls(Trigger))
